@@ -399,6 +399,28 @@ func (fr *Frame) applyContract(st *State, sp *FuncSpec, fn *ssa.Function, sig *t
 			r.oblige(st, "requires@call", short+"."+labelOr(c, i), c.Text, f)
 		}
 	}
+	for i, c := range sp.TypeInvs {
+		f, err := cx.boolExpr(c.Expr)
+		if err != nil {
+			r.eng.bindError(sp, c, err)
+			continue
+		}
+		callerPkg := ""
+		if fr.fn != nil && fr.fn.Pkg != nil {
+			callerPkg = fr.fn.Pkg.Pkg.Path()
+		} else if fr.fn != nil && fr.fn.Parent() != nil && fr.fn.Parent().Pkg != nil {
+			callerPkg = fr.fn.Parent().Pkg.Pkg.Path()
+		}
+		if callerPkg == sp.Pkg {
+			if fr.top {
+				r.oblige(st, "typeinv@call", short+"."+labelOr(c, i), c.Text, f)
+			}
+		} else {
+			// the invariant ranges over unexported state of the callee's package: it cannot be broken from here
+			r.assume(st, f)
+			r.assumed["data invariant of "+sp.Pkg+" assumed at the package boundary: "+c.Text] = true
+		}
+	}
 	pre := st.clone()
 	// forget what the callee may modify
 	var mods map[string]bool
